@@ -256,6 +256,48 @@ def build(run):
             chunk = quads[c::8]
             family_ob(f"quads/{c}", lambda chunk=chunk: ((lab(p), list(p), False) for p in chunk))
 
+    # ---- the public entry point forwards the option: compute_form_data(form, do_append_everywhere_integrals=flag) integrates on every subdomain what
+    # group_form_integrals(form, domains, do_append_everywhere_integrals=flag) does (the integrands are bare coefficients, which no other pass rewrites)
+    def entry_point():
+        from ufl.algorithms import compute_form_data
+        from ufl.algorithms.renumbering import renumber_indices
+        S.set_counters({k: 40 for k in S.COUNTER_FAMILIES})
+        cs = [ufl.Coefficient(V1) for _ in range(6)]
+        dxm, dsm = (lambda *a, **k: ufl.Measure("dx", domain=m1)(*a, **k)), (lambda *a, **k: ufl.Measure("ds", domain=m1)(*a, **k))
+        forms = {
+            "everywhere + numbered": cs[0] * dxm() + cs[1] * dxm(1) + cs[2] * dxm(2, degree=2) + cs[3] * dxm(degree=2) + cs[0] * dsm() + cs[1] * dsm(3),
+            "tuples + everywhere": cs[0] * dxm((1, 2)) + cs[1] * dxm() + cs[2] * dxm((2, 3)) + cs[3] * dsm((1, 2)) + cs[4] * dsm(),
+            "only everywhere": cs[0] * dxm() + cs[1] * dsm(), "only numbered": cs[0] * dxm(1) + cs[1] * dxm(2) + cs[2] * dsm(1),
+        }
+        n = 0
+        for fname, F in forms.items():
+            for flag in (True, False, None):
+                kw = {} if flag is None else {"do_append_everywhere_integrals": flag}
+                want_flag = True if flag is None else flag
+                with warnings.catch_warnings():
+                    warnings.simplefilter("ignore")
+                    fd = compute_form_data(F, **kw)
+                    ref = DA.build_integral_data(DA.group_form_integrals(F, F.ufl_domains(), do_append_everywhere_integrals=want_flag).integrals())
+
+                def table(idata):
+                    out = {}
+                    for idt in idata:
+                        for itg in idt.integrals:
+                            key = (idt.integral_type, tuple(map(str, idt.subdomain_id)) if isinstance(idt.subdomain_id, tuple) else str(idt.subdomain_id),
+                                   repr(sorted((k_, repr(v_)) for k_, v_ in itg.metadata().items() if k_ != "estimated_polynomial_degree")))
+                            out.setdefault(key, []).append(str(renumber_indices(itg.integrand())))
+                    return {k_: sorted(v_) for k_, v_ in out.items()}
+                got, want = table(fd.integral_data), table(ref)
+                n += 1
+                if got != want:
+                    diff_ = sorted(set(got.items() if False else [(k_, tuple(v_)) for k_, v_ in got.items()]) ^ set((k_, tuple(v_)) for k_, v_ in want.items()))[:4]
+                    return violated(f"compute_form_data('{fname}', do_append_everywhere_integrals={flag}) does not integrate what group_form_integrals(..., "
+                                    f"do_append_everywhere_integrals={want_flag}) does: differing (type, subdomain, metadata) -> integrands: {diff_}",
+                                    replay={"form": fname, "flag": flag, "got": {str(k_): v_ for k_, v_ in got.items()}, "want": {str(k_): v_ for k_, v_ in want.items()}},
+                                    reproduced=True, backend="exec")
+        return proved("exec", vcs=n, sample=f"{len(forms)} forms x (True, False, default): compute_form_data groups exactly as group_form_integrals with the same option")
+    run.add("entry-point/compute_form_data-forwards-the-append-option", entry_point, kind="values")
+
     def refusals():
         f = ufl.Coefficient(V1)
         n = 0
